@@ -49,6 +49,42 @@ Definition verdict (c : Z * list (op * obs)) : list (Z * Z * Z * Z) :=
 Definition run_cases (cs : list (Z * list (op * obs))) : list (Z * Z * Z * Z) :=
   flat_map verdict cs.
 
+(* ---- traces of the public entries (ChainService.IsBanned / BanPeer /
+   UnbanPeer): operations carry net.ParseIP's result for the caller's
+   address string; the model parses it (parse_ipnet) itself ---- *)
+Definition pobs_eqb (a b : pobs) : bool :=
+  match a, b with
+  | PErr, PErr => true
+  | POk, POk => true
+  | PAns x, PAns y => Bool.eqb x y
+  | _, _ => false
+  end.
+
+Fixpoint pfirst_mismatch (s : store) (i : Z) (tr : list (pop * pobs)) : option Z :=
+  match tr with
+  | [] => None
+  | (o, ob) :: rest =>
+    let '(s', mob) := pstep s o in
+    if pobs_eqb mob ob then pfirst_mismatch s' (i + 1) rest else Some i
+  end.
+
+Fixpoint pfirst_bad (n : nat) (tr : list (pop * pobs)) : option Z :=
+  match n with
+  | O => None
+  | S n' =>
+    if pholds (firstn (length tr - n') tr) then pfirst_bad n' tr
+    else Some (Z.of_nat (length tr - n') - 1)
+  end.
+
+Definition pverdict (c : Z * list (pop * pobs)) : list (Z * Z * Z * Z) :=
+  let '(id, tr) := c in
+  (match pfirst_mismatch [] 0 tr with Some i => [(id, 1, i, 0)] | None => [] end) ++
+  (if pholds tr then [] else
+     match pfirst_bad (length tr) tr with Some i => [(id, 2, i, 0)] | None => [(id, 2, 0, 0)] end).
+
+Definition run_pcases (cs : list (Z * list (pop * pobs))) : list (Z * Z * Z * Z) :=
+  flat_map pverdict cs.
+
 (* ParseIPNet and codec cases *)
 Definition net_eqb (a b : ipnet) : bool := bytes_eqb (ip a) (ip b) && bytes_eqb (mask a) (mask b).
 Definition onet_eqb (a b : option ipnet) : bool :=
